@@ -57,7 +57,7 @@ Inductive outcome :=
 (* Repair flags of src/peer_handler.rs / src/messages/request.rs, pinned by the correspondence. *)
 Definition Handler_ignore_repeated_unchoke : bool := true.
 Definition Handler_drop_rx_on_unassign : bool := true.
-Definition Handler_recv_error_terminates : bool := false.
+Definition Handler_recv_error_terminates : bool := true.
 Definition Handler_gate_on_handshake : bool := true.
 Definition Handler_drop_tx_on_choke : bool := true.
 Definition Request_validate_u64 : bool := true.
